@@ -10,64 +10,72 @@ import (
 	"verif/sim/simrt"
 )
 
-func pt[T any](p *T) { simrt.Atomic(unsafe.Pointer(p)) }
+func pt[T any](p *T)  { simrt.Atomic(unsafe.Pointer(p)) }                          // read-modify-write
+func ld[T any](p *T)  { simrt.AtomicMode(unsafe.Pointer(p), simrt.AtomicAcquire) } // load (and a compare-and-swap until it succeeds)
+func st[T any](p *T)  { simrt.AtomicMode(unsafe.Pointer(p), simrt.AtomicRelease) } // store
+func pub[T any](p *T) { simrt.AtomicPublish(unsafe.Pointer(p)) }
 
 func AddInt32(p *int32, d int32) int32                 { pt(p); *p += d; return *p }
 func AddInt64(p *int64, d int64) int64                 { pt(p); *p += d; return *p }
 func AddUint32(p *uint32, d uint32) uint32             { pt(p); *p += d; return *p }
 func AddUint64(p *uint64, d uint64) uint64             { pt(p); *p += d; return *p }
 func AddUintptr(p *uintptr, d uintptr) uintptr         { pt(p); *p += d; return *p }
-func LoadInt32(p *int32) int32                         { pt(p); return *p }
-func LoadInt64(p *int64) int64                         { pt(p); return *p }
-func LoadUint32(p *uint32) uint32                      { pt(p); return *p }
-func LoadUint64(p *uint64) uint64                      { pt(p); return *p }
-func LoadUintptr(p *uintptr) uintptr                   { pt(p); return *p }
-func LoadPointer(p *unsafe.Pointer) unsafe.Pointer     { pt(p); return *p }
-func StoreInt32(p *int32, v int32)                     { pt(p); *p = v }
-func StoreInt64(p *int64, v int64)                     { pt(p); *p = v }
-func StoreUint32(p *uint32, v uint32)                  { pt(p); *p = v }
-func StoreUint64(p *uint64, v uint64)                  { pt(p); *p = v }
-func StoreUintptr(p *uintptr, v uintptr)               { pt(p); *p = v }
-func StorePointer(p *unsafe.Pointer, v unsafe.Pointer) { pt(p); *p = v }
+func LoadInt32(p *int32) int32                         { ld(p); return *p }
+func LoadInt64(p *int64) int64                         { ld(p); return *p }
+func LoadUint32(p *uint32) uint32                      { ld(p); return *p }
+func LoadUint64(p *uint64) uint64                      { ld(p); return *p }
+func LoadUintptr(p *uintptr) uintptr                   { ld(p); return *p }
+func LoadPointer(p *unsafe.Pointer) unsafe.Pointer     { ld(p); return *p }
+func StoreInt32(p *int32, v int32)                     { st(p); *p = v }
+func StoreInt64(p *int64, v int64)                     { st(p); *p = v }
+func StoreUint32(p *uint32, v uint32)                  { st(p); *p = v }
+func StoreUint64(p *uint64, v uint64)                  { st(p); *p = v }
+func StoreUintptr(p *uintptr, v uintptr)               { st(p); *p = v }
+func StorePointer(p *unsafe.Pointer, v unsafe.Pointer) { st(p); *p = v }
 func SwapInt32(p *int32, v int32) int32                { pt(p); o := *p; *p = v; return o }
 func SwapInt64(p *int64, v int64) int64                { pt(p); o := *p; *p = v; return o }
 func SwapUint32(p *uint32, v uint32) uint32            { pt(p); o := *p; *p = v; return o }
 func SwapUint64(p *uint64, v uint64) uint64            { pt(p); o := *p; *p = v; return o }
 func CompareAndSwapInt32(p *int32, o, n int32) bool {
-	pt(p)
+	ld(p)
 	if *p == o {
+		pub(p)
 		*p = n
 		return true
 	}
 	return false
 }
 func CompareAndSwapInt64(p *int64, o, n int64) bool {
-	pt(p)
+	ld(p)
 	if *p == o {
+		pub(p)
 		*p = n
 		return true
 	}
 	return false
 }
 func CompareAndSwapUint32(p *uint32, o, n uint32) bool {
-	pt(p)
+	ld(p)
 	if *p == o {
+		pub(p)
 		*p = n
 		return true
 	}
 	return false
 }
 func CompareAndSwapUint64(p *uint64, o, n uint64) bool {
-	pt(p)
+	ld(p)
 	if *p == o {
+		pub(p)
 		*p = n
 		return true
 	}
 	return false
 }
 func CompareAndSwapPointer(p *unsafe.Pointer, o, n unsafe.Pointer) bool {
-	pt(p)
+	ld(p)
 	if *p == o {
+		pub(p)
 		*p = n
 		return true
 	}
@@ -122,12 +130,13 @@ func b2u(b bool) uint32 {
 
 type Pointer[T any] struct{ p *T }
 
-func (x *Pointer[T]) Load() *T     { pt(&x.p); return x.p }
-func (x *Pointer[T]) Store(v *T)   { pt(&x.p); x.p = v }
+func (x *Pointer[T]) Load() *T     { ld(&x.p); return x.p }
+func (x *Pointer[T]) Store(v *T)   { st(&x.p); x.p = v }
 func (x *Pointer[T]) Swap(v *T) *T { pt(&x.p); o := x.p; x.p = v; return o }
 func (x *Pointer[T]) CompareAndSwap(o, n *T) bool {
-	pt(&x.p)
+	ld(&x.p)
 	if x.p == o {
+		pub(&x.p)
 		x.p = n
 		return true
 	}
@@ -136,14 +145,54 @@ func (x *Pointer[T]) CompareAndSwap(o, n *T) bool {
 
 type Value struct{ v any }
 
-func (x *Value) Load() any      { pt(&x.v); return x.v }
-func (x *Value) Store(v any)    { pt(&x.v); x.v = v }
+func (x *Value) Load() any      { ld(&x.v); return x.v }
+func (x *Value) Store(v any)    { st(&x.v); x.v = v }
 func (x *Value) Swap(v any) any { pt(&x.v); o := x.v; x.v = v; return o }
 func (x *Value) CompareAndSwap(o, n any) bool {
-	pt(&x.v)
+	ld(&x.v)
 	if x.v == o {
+		pub(&x.v)
 		x.v = n
 		return true
 	}
 	return false
 }
+
+type Uintptr struct{ v uintptr }
+
+func (x *Uintptr) Load() uintptr          { return LoadUintptr(&x.v) }
+func (x *Uintptr) Store(v uintptr)        { StoreUintptr(&x.v, v) }
+func (x *Uintptr) Add(d uintptr) uintptr  { return AddUintptr(&x.v, d) }
+func (x *Uintptr) Swap(v uintptr) uintptr { pt(&x.v); o := x.v; x.v = v; return o }
+func (x *Uintptr) CompareAndSwap(o, n uintptr) bool {
+	ld(&x.v)
+	if x.v == o {
+		pub(&x.v)
+		x.v = n
+		return true
+	}
+	return false
+}
+
+// And/Or (Go 1.23): read-modify-write operations returning the old value.
+func AndInt32(p *int32, m int32) int32         { pt(p); o := *p; *p &= m; return o }
+func AndUint32(p *uint32, m uint32) uint32     { pt(p); o := *p; *p &= m; return o }
+func AndInt64(p *int64, m int64) int64         { pt(p); o := *p; *p &= m; return o }
+func AndUint64(p *uint64, m uint64) uint64     { pt(p); o := *p; *p &= m; return o }
+func AndUintptr(p *uintptr, m uintptr) uintptr { pt(p); o := *p; *p &= m; return o }
+func OrInt32(p *int32, m int32) int32          { pt(p); o := *p; *p |= m; return o }
+func OrUint32(p *uint32, m uint32) uint32      { pt(p); o := *p; *p |= m; return o }
+func OrInt64(p *int64, m int64) int64          { pt(p); o := *p; *p |= m; return o }
+func OrUint64(p *uint64, m uint64) uint64      { pt(p); o := *p; *p |= m; return o }
+func OrUintptr(p *uintptr, m uintptr) uintptr  { pt(p); o := *p; *p |= m; return o }
+
+func (x *Int32) And(m int32) int32       { return AndInt32(&x.v, m) }
+func (x *Int32) Or(m int32) int32        { return OrInt32(&x.v, m) }
+func (x *Uint32) And(m uint32) uint32    { return AndUint32(&x.v, m) }
+func (x *Uint32) Or(m uint32) uint32     { return OrUint32(&x.v, m) }
+func (x *Int64) And(m int64) int64       { return AndInt64(&x.v, m) }
+func (x *Int64) Or(m int64) int64        { return OrInt64(&x.v, m) }
+func (x *Uint64) And(m uint64) uint64    { return AndUint64(&x.v, m) }
+func (x *Uint64) Or(m uint64) uint64     { return OrUint64(&x.v, m) }
+func (x *Uintptr) And(m uintptr) uintptr { return AndUintptr(&x.v, m) }
+func (x *Uintptr) Or(m uintptr) uintptr  { return OrUintptr(&x.v, m) }
